@@ -361,7 +361,20 @@ pub fn guarded<T>(f: impl FnOnce() -> T) -> Result<T, String> {
     }
 }
 
+thread_local! {
+    static LAST_ERROR_TEXT: RefCell<Option<(String, String)>> = const { RefCell::new(None) };
+}
+
+/// (Display, Debug) of the error the last `outcome_of` on this thread saw: what a user who prints the error reads
+pub fn last_error_text() -> Option<(String, String)> {
+    LAST_ERROR_TEXT.with(|t| t.borrow().clone())
+}
+
 pub fn outcome_of(r: Result<Result<QRCode, fast_qr::qr::QRCodeError>, String>) -> Outcome {
+    if let Ok(Err(e)) = &r {
+        let texts = guarded(|| (format!("{e}"), format!("{e:?}"))).unwrap_or_else(|p| (format!("<formatting the error panicked: {p}>"), String::new()));
+        LAST_ERROR_TEXT.with(|t| *t.borrow_mut() = Some(texts));
+    }
     match r {
         Ok(Ok(q)) => Outcome::Ok(Box::new(q)),
         Ok(Err(fast_qr::qr::QRCodeError::EncodedData)) => Outcome::TooBig,
